@@ -7,6 +7,7 @@ package main
 
 import (
 	"bufio"
+	"encoding/json"
 	"fmt"
 	"os"
 	"strconv"
@@ -172,4 +173,60 @@ func (w *shardWriter) close() {
 func fatal(f string, a ...interface{}) {
 	fmt.Fprintf(os.Stderr, "harness: "+f+"\n", a...)
 	os.Exit(2)
+}
+
+func readNDJSON(path string) []map[string]interface{} {
+	f, err := os.Open(path)
+	if err != nil {
+		fatal("open %s: %v", path, err)
+	}
+	defer f.Close()
+	var out []map[string]interface{}
+	sc := bufio.NewScanner(f)
+	sc.Buffer(make([]byte, 1<<20), 1<<28)
+	for sc.Scan() {
+		if len(sc.Bytes()) == 0 {
+			continue
+		}
+		var m map[string]interface{}
+		if err := json.Unmarshal(sc.Bytes(), &m); err != nil {
+			fatal("parse %s: %v", path, err)
+		}
+		out = append(out, m)
+	}
+	return out
+}
+
+func jint(v interface{}) int {
+	f, ok := v.(float64)
+	if !ok {
+		return 0
+	}
+	return int(f)
+}
+
+func jints(v interface{}) []int {
+	l, _ := v.([]interface{})
+	r := make([]int, len(l))
+	for i, x := range l {
+		r[i] = jint(x)
+	}
+	return r
+}
+
+func jins(v interface{}) ins {
+	t := jints(v)
+	if len(t) != 6 {
+		fatal("bad instruction tuple %v", v)
+	}
+	return ins{t[0], t[1], t[2], t[3], t[4], t[5]}
+}
+
+func jinsList(v interface{}) []ins {
+	l, _ := v.([]interface{})
+	r := make([]ins, len(l))
+	for i, x := range l {
+		r[i] = jins(x)
+	}
+	return r
 }
